@@ -303,8 +303,7 @@ def _rejections(w):
     empty argument (`if len(X) == 0: return []`) - the inputs the properties quantify over are not empty."""
     out = [e for e in w.events if e.kind == "raise"]
     for e in w.events:
-        if e.kind == "return" and e.fn is w.entry and not e.loops and e.guards \
-                and empty_input_test(values_of(e.guards[-1][0]), e.guards[-1][1]):
+        if is_empty_exit(w, e):
             out.append(e)
     return out
 
@@ -371,13 +370,29 @@ def empty_input_test(g, pol) -> bool:
     return False
 
 
+def is_empty_exit(w, e) -> bool:
+    """A return of the entry function taken for an empty argument: its innermost test is the emptiness test, the tests
+    around it are validation complements or `arg is not None`."""
+    if not (e.kind == "return" and e.fn is w.entry and not e.loops and e.guards):
+        return False
+    g, pol = e.guards[-1]
+    if not empty_input_test(values_of(g), pol):
+        return False
+    raises = [r for r in w.events if r.kind == "raise"]
+    for g2, p2 in e.guards[:-1]:
+        t = g2 if p2 else mk_not(g2)
+        given = t[0] == "cmp" and t[1] == "is not" and {t[2][0], t[3][0]} == {"param", "const"} and ("const", None) in (t[2], t[3])
+        if not (given or validation_guard(raises, g2, p2)):
+            return False
+    return True
+
+
 def main_returns(w: Walker):
     """Returns of the entry function, without early exits taken for an empty argument (`if len(X) == 0: return []`)."""
     out = []
     for e in w.events:
         if e.kind == "return" and e.fn is w.entry:
-            if e.guards and not e.loops and empty_input_test(values_of(e.guards[-1][0]), e.guards[-1][1]) and all(
-                    validation_guard([r for r in w.events if r.kind == "raise"], g, pol) for g, pol in e.guards[:-1]):
+            if is_empty_exit(w, e):
                 continue
             out.append(e)
     return out
